@@ -57,7 +57,7 @@ BR_ASSUME = ["response bodies are reached through a GET exchange whose head is d
 PROPS["C07"] = {
     "driver": "c07", "trace_spec": "TraceBodyReader", "scripts": "dechunk",
     "mc_quick": [mc("MCDechunk", "MCDechunk_q1.cfg", workers=6), mc("MCDechunk", "MCDechunk_q2.cfg", workers=6)],
-    "mc_thorough": [mc("MCDechunk", "MCDechunk_q1.cfg", workers=6), mc("MCDechunk", "MCDechunk_thorough.cfg", workers=16, timeout=3000, heap="12g")],
+    "mc_thorough": [mc("MCDechunk", "MCDechunk_q1.cfg", workers=6), mc("MCDechunk", "MCDechunk_thorough.cfg", workers=16, timeout=3400, heap="12g"), mc("MCDechunk", "MCDechunk_three.cfg", workers=8)],
     "require_classes": ["r:consume-only", "r:nothing", "r:filled-output"],
     "require_kinds": ["r", "verdict"],
     "rule": "one case = one valid chunked coding (model table, small-scope grammar, hex-digit boundary sizes, random) + one arrival/buffer/stop schedule "
